@@ -35,6 +35,9 @@ def viewOk (v : TView) : Bool :=
   noDupKeys v.live && decide (v.live.length ≤ 16) && decide (v.count = v.live.length) &&
   (v.empty == v.live.isEmpty) && (v.allc == v.live.all (·.complete))
 
+/-- a session survives the expiry sweep at `nowS` iff it was active within the last 60 s -/
+def fresh (nowS : Nat) (s : Sess) : Bool := decide (nowS ≤ s.last + 60)
+
 def sameSet (a b : List Sess) : Bool := a.all (fun x => b.contains x) && b.all (fun x => a.contains x)
 
 inductive TOp where
@@ -62,7 +65,7 @@ def holdsC16 (pre post : TView) (op : TOp) (found : Bool) (nowS : Nat) : Bool :=
   | .remove mac gen => sameSet post.live (pre.live.filter (fun s => s.key != (mac, gen)))
   | .clear => post.live.isEmpty
   | .complete mac gen => sameSet post.live (pre.live.map (fun s => if s.key == (mac, gen) then { s with complete := true } else s))
-  | .expire => sameSet post.live (pre.live.filter (fun s => decide (nowS ≤ s.last + 60)))
+  | .expire => sameSet post.live (pre.live.filter (fresh nowS))
   | .other => sameSet post.live pre.live
 
 /-- the view of a model table -/
